@@ -34,14 +34,23 @@ FIELDS = [
     ("Bls381Fq", 6),
     ("B9", 9),
     ("N13", 13),
+    # added later (own RNG stream per field, the literals of the fields above are unchanged): the limb counts that were
+    # missing (7, 8, 10, 11, 12), a modulus with top limb exactly 2^63 / 2^63-1, and hand-written configurations
+    ("Q2", 2), ("Top63", 2), ("S7", 7), ("N8", 8), ("B10", 10), ("S11", 11), ("N12", 12), ("H2q", 2), ("H4n", 4),
 ]
-BIGINT_LIMBS = [1, 2, 3, 4, 6, 9, 13]
+# literals per field for the fields added later (base stream; the extra stream uses 2/3 of it)
+FEWER = {"Q2": 80, "Top63": 80, "S7": 80, "N8": 80, "B10": 80, "S11": 80, "N12": 80, "H2q": 80, "H4n": 80}
+BIGINT_LIMBS = [1, 2, 3, 4, 6, 9, 13, 5, 7, 8, 10, 11, 12]
+BIGINT_FEWER = {5: 40, 7: 40, 8: 40, 10: 40, 11: 40, 12: 40}
 
 
 def zoo_moduli():
     src = open(ZOO).read()
     out = {}
     for m in re.finditer(r'#\[modulus = "(\d+)"\]\s*(?:#\[[a-z_]+ = "\d+"\]\s*)*pub struct (\w+)Cfg;', src):
+        out[m.group(2)] = int(m.group(1))
+    # hand-written configurations: the modulus is in the doc comment that gen_fields.py writes above the struct
+    for m in re.finditer(r'/// hand-written `impl MontConfig` \(trait-default arithmetic\); p = (\d+)\s*pub struct (\w+)Cfg;', src):
         out[m.group(2)] = int(m.group(1))
     return out
 
@@ -175,7 +184,8 @@ def main():
         p = moduli[name]
         assert (p.bit_length() + 63) // 64 == n, name
         rng = random.Random("c20/%d/%s/field/%s" % (a.seed, stream, name))
-        items = literals(rng, p, n, per_field, True)
+        cnt = per_field if name not in FEWER else (FEWER[name] * per_field) // 300
+        items = literals(rng, p, n, cnt, True)
         total += len(items)
         ty = "zoo::%s" % name
         c_items, rt_items, s_items = items[:n_const], items[n_const:n_const + n_rt], items[n_const + n_rt:]
@@ -199,7 +209,8 @@ def main():
         visit.append('    v.field::<zoo::%sCfg, %d>("%s", "runtime", rt_%s());' % (name, n, name, name))
     for n in BIGINT_LIMBS:
         rng = random.Random("c20/%d/%s/bigint/%d" % (a.seed, stream, n))
-        items = literals(rng, None, n, per_bigint, False)
+        cnt = per_bigint if n not in BIGINT_FEWER else (BIGINT_FEWER[n] * per_bigint) // 100
+        items = literals(rng, None, n, cnt, False)
         total += len(items)
         c_items, s_items = items[:n_const], items[n_const:]
         w.append("pub static SB_%d: &[(&str, &str, BigInt<%d>)] = &[" % (n, n))
